@@ -106,8 +106,9 @@ class McmcPersonalizeAlgorithm(
             )
         self._terminate_algo(model, state)
         # Create the IndividualParameters object
+        # identifiers may be integers in the data; individual parameters are always keyed by strings
         return IndividualParameters.from_pytorch(
-            dataset.indices, individual_parameters_torch
+            [str(idx) for idx in dataset.indices], individual_parameters_torch
         )
 
     def _initialize_algo(
